@@ -205,6 +205,19 @@ check("C18", "DESIGN.md 5/C18",
       "the three logs must be identical.",
       "Trusted: the structural fingerprints. Bit-identity is compared within one interpreter version, not across output types.")
 
+check("C12", "DESIGN.md 5/C12",
+      "TLA+ module Spline.tla in exact rationals: Cox-de Boor B-splines with the five extrapolation modes, natural/cyclic cardinal cubic "
+      "bases from the exactly solved second-derivative system, self-validated in TLC; exhaustive replay on the exact grid; oracle round "
+      "trip (Oracle_Spline) for df-derived knot vectors recorded by the code",
+      "TLC proves on every integer knot vector in the bound and the half-integer grid non-negativity, partition of unity, column/knot "
+      "counts, and validates its own cubic bases against their characterisation (identity at the knots, C1 at inner knots, natural or "
+      "periodic end conditions); bs / cr / cc are executed on every case (direct, with recorded state, through model_matrix) and compared "
+      "with the exact values, each extrapolation mode as documented; for calls with df the recorded knots are converted to exact "
+      "fractions and TLC computes the expected design matrix on that knot vector.",
+      "Stated limits: exact grid only (integer / small-denominator knots, degree <= 3-5); the continuum, ill-conditioned knot vectors and "
+      "the QR-centred basis are outside this family's reach - centering (zero column means, rank within the span of the free basis) is a "
+      "numpy predicate; round trips whose rationals overflow 32 bits are counted, not judged.")
+
 NOT_YET = "check not yet built in this round (planned; see DESIGN.md section 5)"
 
 
